@@ -1208,3 +1208,93 @@ func outer(fn *ssa.Function) *ssa.Function {
 	}
 	return fn
 }
+
+// ---------- captured cells ----------
+
+// cellOfAddr: the Alloc a pointer value denotes, following closure free variables.
+func cellOfAddr(v ssa.Value) *ssa.Alloc {
+	for i := 0; i < 10; i++ {
+		switch x := v.(type) {
+		case *ssa.Alloc:
+			return x
+		case *ssa.FreeVar:
+			b := freeVarBinding(x)
+			if b == nil {
+				return nil
+			}
+			v = b
+		default:
+			return nil
+		}
+	}
+	return nil
+}
+
+// cellOfLoad: v is a load (*cell) of a local/captured variable cell.
+func cellOfLoad(v ssa.Value) *ssa.Alloc {
+	u, ok := v.(*ssa.UnOp)
+	if !ok || u.Op != token.MUL {
+		return nil
+	}
+	return cellOfAddr(u.X)
+}
+
+// storesToCell: every Store into the cell from its function and nested closures.
+func storesToCell(a *ssa.Alloc) []*ssa.Store {
+	var out []*ssa.Store
+	for _, f := range withAnon(a.Parent()) {
+		for _, b := range f.Blocks {
+			for _, in := range b.Instrs {
+				if st, ok := in.(*ssa.Store); ok && cellOfAddr(st.Addr) == a {
+					out = append(out, st)
+				}
+			}
+		}
+	}
+	return out
+}
+
+// retVal returns the i-th result of a return, looking through the result
+// cells go/ssa introduces in functions with defer ("*t2 = v; rundefers; t9 = *t2; return t9").
+func retVal(ret *ssa.Return, i int) ssa.Value {
+	v := ret.Results[i]
+	u, ok := v.(*ssa.UnOp)
+	if !ok || u.Op != token.MUL {
+		return v
+	}
+	a, ok := u.X.(*ssa.Alloc)
+	if !ok || a.Heap {
+		return v
+	}
+	// last store to the cell before the return in the same block
+	instrs := ret.Block().Instrs
+	for j := len(instrs) - 1; j >= 0; j-- {
+		if st, ok := instrs[j].(*ssa.Store); ok && st.Addr == a {
+			return st.Val
+		}
+	}
+	// otherwise a unique store anywhere
+	if cv := cellValue(a); cv != nil {
+		return cv
+	}
+	return v
+}
+
+func lastRet(ret *ssa.Return) ssa.Value { return retVal(ret, len(ret.Results)-1) }
+
+// proxyFuncs: functions of internal/server that are part of the shipped proxy
+// (testing.go holds helpers used only by the test suite).
+func (c *Ctx) proxyFuncs() []*ssa.Function {
+	var out []*ssa.Function
+	for _, f := range c.modFuncs {
+		o := outer(f)
+		if o.Pkg != c.server {
+			continue
+		}
+		if strings.HasSuffix(c.fset.Position(o.Pos()).Filename, "/testing.go") {
+			continue
+		}
+		out = append(out, f)
+	}
+	return out
+}
